@@ -47,6 +47,10 @@ static var* BT[NBUILTIN_T] = {
 static var RT[MAXRT]; static int g_nrt;
 static var RC[MAXRC]; static int g_nrc;
 static char g_names[MAXRT + MAXRC][16];
+/* what each run-time type was declared with, in order (a class may be declared more than once: the first declaration is the
+ * one every lookup must answer with) */
+#define MAXDECL 300
+static struct { int n; int ck[MAXDECL]; var inst[MAXDECL]; } *DECL[MAXRT];
 static volatile long g_tripwire;
 
 static var tripwire(var a) { (void)a; g_tripwire++; return NULL; }
@@ -88,9 +92,16 @@ static var make_obj_of(var t, char* buf) {
 #define DV(cls, ...) viol("C08", cls, __VA_ARGS__)
 
 /* one (type, class, member) triple through every public lookup */
+static int rt_slot_of(var t) { for (int i = 0; i < MAXRT; i++) if (RT[i] is t && DECL[i]) return i; return -1; }
+static var declared_instance(var t, int ck, var cls) {
+  int s = rt_slot_of(t);
+  if (s < 0) return raw_scan(t, cls);            /* static types: the record in the binary is the declaration */
+  for (int i = 0; i < DECL[s]->n; i++) if (DECL[s]->ck[i] == ck) return DECL[s]->inst[i];
+  return NULL;
+}
 static void check_triple(var t, int ck, int member, int tid) {
   var cls = cls_at(ck);
-  var want = raw_scan(t, cls);
+  var want = declared_instance(t, ck, cls);
   int nmem = cls_nmem(ck);
   int m = ((member % nmem) + nmem) % nmem;
   int has_member = want && ((var*)want)[m] != NULL;
@@ -183,6 +194,28 @@ static void mktype(int ninst, int nbuiltin, uint64_t seed) {
   for (int i = 0; i < nbuiltin; i++) { int c; do { c = (int)rng_below(&r, NCLS); } while (used[c]); used[c] = 1; pick[n++] = c; }
   for (int i = 0; i < ninst - nbuiltin && i < g_nrc; i++) pick[n++] = NCLS + i;
   for (int i = n - 1; i > 0; i--) { int j = (int)rng_below(&r, (uint32_t)i + 1); int t = pick[i]; pick[i] = pick[j]; pick[j] = t; }
+  /* unusual but legal declarations (their own random stream, so the rest of the type is what it was without them):
+   * a class declared a second time somewhere later in the list; a name another type already has */
+  Rng r2; rng_seed(&r2, seed, 6, STREAM_AUX);
+  if (n > 0 && rng_chance(&r2, 1, 3)) {
+    int nd = 1 + (int)rng_below(&r2, 3);
+    if (n + nd > 256) nd = 256 - n;                /* Type_New accepts at most 256 instances */
+    for (int d = 0; d < nd; d++) {
+      int i = (int)rng_below(&r2, (uint32_t)n), j = i + 1 + (int)rng_below(&r2, (uint32_t)(n - i));
+      memmove(&pick[j + 1], &pick[j], sizeof(int) * (size_t)(n - j)); pick[j] = pick[i]; n++;
+    }
+    stat_add("disp.repeated_class_declarations", nd);
+  }
+  if (rng_chance(&r2, 1, 3)) {
+    int k = (int)rng_below(&r2, (uint32_t)(NBUILTIN_T + g_nrt));
+    const char* nm = (k >= NBUILTIN_T && k - NBUILTIN_T == slot) ? "" : raw_name_of(type_at(k));   /* not the type being replaced */
+    if (nm[0] && strlen(nm) < 16 && strcmp(nm, g_names[slot]) != 0) {
+      strcpy(g_names[slot], nm);
+      stat_add("disp.same_named_types", 1);
+    }
+  }
+  if (!DECL[slot]) DECL[slot] = harness_alloc(sizeof *DECL[slot]);
+  DECL[slot]->n = 0;
   for (int i = 0; i < n; i++) {
     var c = cls_at(pick[i]);
     var inst = alloc_raw(c);                       /* an object whose type is the class: the instance record */
@@ -191,6 +224,7 @@ static void mktype(int ninst, int nbuiltin, uint64_t seed) {
     for (int m = 0; m < nm && (size_t)(m + 1) * sizeof(var) <= sz; m++)
       ((var*)inst)[m] = rng_chance(&r, 3, 4) ? (var)tripwire : NULL;   /* some members left empty */
     push(args, inst);
+    if (DECL[slot]->n < MAXDECL) { DECL[slot]->ck[DECL[slot]->n] = pick[i]; DECL[slot]->inst[DECL[slot]->n] = inst; DECL[slot]->n++; }
   }
   var t = new_raw_with(Type, args);
   /* the name string must outlive the type (Type_New keeps the pointer) */
@@ -198,7 +232,7 @@ static void mktype(int ninst, int nbuiltin, uint64_t seed) {
   RT[slot] = t;
   if (g_replace_slot < 0) g_nrt++;
   g_replace_slot = -1;
-  if (raw_count(t) != n) DV("C08:harness:record", "run-time type has %d instances, expected %d", raw_count(t), n);
+  if (raw_count(t) != n) DV("C08:record-lost-declarations", "run-time type declared with %d instances has %d in its record", n, raw_count(t));
   stat_max("disp.max_instances", n);
   stat_add("disp.runtime_types", 1);
 }
@@ -224,6 +258,15 @@ static void dispatch_execute(const Plan* p) {
         if (t is u) { if (ex || r isnt obj) DV("C08:cast-same-type-failed", "cast to the object's own type failed"); }
         else if (ex isnt ValueError) DV("C08:cast-no-valueerror", "cast(<%s>, %s) raised %s instead of ValueError", raw_name_of(t), raw_name_of(u), exc_name(ex));
         stat_add("disp.casts", 1);
+        /* every other type that merely has the same name is a different type */
+        for (int k = 0; k < NBUILTIN_T + g_nrt; k++) {
+          var w = type_at(k);
+          if (w is t || strcmp(raw_name_of(w), raw_name_of(t)) != 0) continue;
+          ex = NULL;
+          try { r = cast(obj, w); } catch (e) { ex = e; }
+          if (ex isnt ValueError) DV("C08:cast-no-valueerror", "cast(<%s>, another type named %s) raised %s instead of ValueError", raw_name_of(t), raw_name_of(w), exc_name(ex));
+          stat_add("disp.casts_to_same_named_type", 1);
+        }
         break; }
       case D_RMTYPE: {
         if (g_nrt == 0) break;
